@@ -13,6 +13,7 @@ import (
 	"runtime"
 	"strings"
 	"sync"
+	"sync/atomic"
 	"time"
 
 	"github.com/enbility/ship-go/api"
@@ -624,6 +625,7 @@ func runScenario(r *vh.Rng, maxLen int, script *scriptT) *scenario {
 			case outcome = <-done:
 			case <-time.After(6 * time.Second):
 				env.add("OHang")
+				hangs.Add(1)
 				outcome = "hang"
 			}
 			if e.kind == "run" {
@@ -647,7 +649,7 @@ func runScenario(r *vh.Rng, maxLen int, script *scriptT) *scenario {
 			sc.kinds[e.kind]++
 			if e.slow {
 				fastSince = time.Now()
-			} else if !fastSince.IsZero() && time.Since(fastSince) > 350*time.Millisecond {
+			} else if outcome == "" && !fastSince.IsZero() && time.Since(fastSince) > 350*time.Millisecond {
 				// the fast segment took long enough for a pending 500 ms / 1 s goroutine to
 				// interleave: timing is not controlled any more, drop the scenario
 				sc.discarded = true
@@ -777,6 +779,12 @@ func loadVariants(path string) {
 	}
 }
 
+// handlers that did not return: their goroutines cannot be stopped and may spin; after a few
+// of them the remaining scenarios are skipped (the recorded hangs carry the verdict)
+var hangs atomic.Int32
+
+const maxHangs = 3
+
 func main() {
 	flag.Parse()
 	if *out == "" {
@@ -810,6 +818,9 @@ func main() {
 		go func(i int) {
 			defer wg.Done()
 			defer func() { <-sem }()
+			if hangs.Load() >= maxHangs {
+				return
+			}
 			r := vh.NewRng(seeds[i])
 			var sc *scenario
 			for try := 0; try < 3; try++ {
@@ -826,13 +837,17 @@ func main() {
 		}(i)
 	}
 	wg.Wait()
-	discarded := 0
+	discarded, skipped := 0, 0
 	for _, sc := range results {
+		if sc == nil {
+			skipped++
+			continue
+		}
 		if sc.discarded {
 			discarded++
 			continue
 		}
 		w.Put(sc.toCase())
 	}
-	fmt.Printf("scenarios=%d discarded_for_timing=%d\n", *n, discarded)
+	fmt.Printf("scenarios=%d discarded_for_timing=%d skipped_after_%d_hangs=%d\n", *n, discarded, maxHangs, skipped)
 }
